@@ -80,6 +80,17 @@ def alphabet(tier):
     if tier == "thorough":
         A.append(defmsg("D2", "V2", "Switch", ("a", "b"), "Ok"))
         A.append(defmsg("D1", "V2", "Number", ("a", "b"), "Alert", "L2", "G2"))
+        # a third element, reordered and overlapping element sets (redefinition with other members)
+        A.append(defmsg("D1", "V1", "Text", ("b", "c"), "Idle", "L3", None, 1))
+        A.append(defmsg("D1", "V1", "Text", ("c", "a", "b"), "Ok", None, "G3"))
+        A.append(defmsg("D1", "V1", "Switch", ("c", "b"), "Alert"))
+        A.append(setmsg("D1", "V1", "Text", (("c", "t2"),), "Idle"))
+        A.append(setmsg("D1", "V1", "Text", (("c", "t1"), ("a", "t2")), "Alert"))
+        A.append(setmsg("D1", "V1", "Switch", (("c", "On"),)))
+        A.append(setmsg("D2", "V1", "Text", (("b", "t1"),), "Ok"))
+        A.append(setmsg("D2", "V2", "Switch", (("a", "Off"), ("b", "On")), "Busy"))
+        A.append(("delProperty", (("device", "D2"), ("name", "V1")), None, ()))
+        A.append(("delProperty", (("device", "D2"), ("name", "V2"), ("message", "gone"), ("timestamp", "2024-01-01T00:00:00")), None, ()))
     for K in kinds:
         if K == "BLOB":
             v1, v2 = B1, B2
